@@ -244,6 +244,20 @@ def body_completion_order(E, cfg):
         E.tag("nontrivial")
     E.check("per-query-results-are-collected-in-submission-order-whatever-the-completion-order",
             got == [i for i in order if i in got])
+    # --cpus is an arbitrary symbolic integer >= 1 on a second execute of the same coordinator over the same world (the stubbed
+    # environment answers identically): the coordinator itself must not make the result depend on it
+    cpus = E.int("cpus")
+    E.assume(cpus >= 1)
+    before = world.coord.args.numberOfCpus
+    world.coord.args.numberOfCpus = cpus
+    try:
+        rows2, exc2 = orch.run_execute(world)
+    finally:
+        world.coord.args.numberOfCpus = before
+    if exc2 is not None:
+        E.fail("exception-for-another-value-of-cpus:" + type(exc2).__name__)
+        return [got]
+    E.check("same-records-for-every-value-of-cpus", len(rows) == len(rows2) and all(a is b for a, b in zip(rows, rows2)))
     return [got]
 
 
@@ -253,7 +267,7 @@ def completion_order_unit():
                                       dict(initial_kinds=[1], refined_peaks=[1], row_has_pairs=[True, False], nrefs=1, nq=3, peaksCount=1)],
                 functions=orch.ORCH_FUNCTIONS, stubs=orch.ORCH_STUBS,
                 bounds="2-3 queries, one reference; the parallel map the coordinator calls is modelled per its library contract (ordered for "
-                       "p_imap/p_map, adversarially reversed for the unordered variants)",
+                       "p_imap/p_map, adversarially reversed for the unordered variants); a second execute with --cpus an unbounded symbolic integer >= 1",
                 nontrivial_rule="at least two queries yield a record",
                 assumptions=["p_tqdm contract: p_imap/p_map preserve input order"],
                 outside=["real worker processes and their timing"])
